@@ -430,7 +430,7 @@ package parse
 //@   props C05 C18
 //@   requires treeOK(t) && t.aliases != nil
 //@   modifies *
-//@   preserves E!Int
+//@   preserves E!Int G!github.com/robfig/soy/*
 //@   ensures[step] stepOK(t)
 
 //@ func isBinaryOp
